@@ -433,4 +433,13 @@ def step (cfg : Cfg) (s : State) : Event → State
 
 def run (cfg : Cfg) (es : List Event) : State := es.foldl (step cfg) init
 
+/-- the same broker configuration with another credential store -/
+def Cfg.withStore (cfg : Cfg) (st : Store) : Cfg := { cfg with store := st }
+
+/-- a history under a credential store whose CONTENTS CHANGE while the broker runs (a secret is rotated, an
+    identity revoked or added, the JSON file reloaded): every event comes with the store as it is at that
+    moment.  `run cfg es` is the special case of a store that never changes (`run_eq_runS`). -/
+def runS (cfg : Cfg) (es : List (Store × Event)) : State :=
+  es.foldl (fun s se => step (cfg.withStore se.1) s se.2) init
+
 end Hpfeeds.Broker
